@@ -494,6 +494,13 @@ class Env(fsseam.FsEnv):
         if st["line"] is None:
             st["line"] = data
             st["start"] = os.fstat(fio.fileno()).st_size
+            st["total"] = len(data)
+            st["size_at_write"] = st["start"]
+            if data.startswith(b"\n") and len(data) > 1:
+                # the sender starts a new line first (the file ended in a fragment): the record is what follows
+                st["line"] = data[1:]
+                st["start"] += 1
+                sim.probe("send_started_a_new_line_after_a_fragment")
             plan = []
             for f in self.wfault.get((name, st["index"]), []):
                 if f["kind"] == "short_write":
@@ -538,7 +545,7 @@ class Env(fsseam.FsEnv):
         if cur is not None:
             cur["written"] += done
             cur["nwrites"] = cur.get("nwrites", 0) + 1
-            if cur["written"] < len(cur["line"] or b""):
+            if cur["written"] < cur.get("total", len(cur["line"] or b"")):
                 # the file is now cut short inside this record for every reader that runs
                 self.hist.partial_now.add(name)
                 hold = self.spec["knobs"].get("hold_cut_ns")
@@ -609,6 +616,7 @@ class History:
         self.seq = 0
         self.send_errors = []
         self.recv_errors = []
+        self.torn_done = 0  # failed (torn) sends that have returned
         self.was_intact_at = {}  # serial -> offsets where its line stood intact just before the simulator damaged bytes
 
     def tick(self):
@@ -761,6 +769,19 @@ class NodeRunner:
                "invoke": self.hist.tick(), "ret": None, "line": None, "id": None, "start": None, "torn": False, "cut": False}
         self.hist.sends[op["serial"]] = rec
         self.hist.cur_send[name] = st
+        # does the file end in a fragment that a FAILED send left behind, with nobody in the middle of a write?  A record
+        # sent now, in one piece, must still be a line of its own
+        rec["after_fragment"] = False
+        if not self.hist.partial_now and not self.env.wfault.get((name, st["index"])) and self.hist.torn_done:
+            try:
+                with open(self.path, "rb") as f:
+                    f.seek(0, 2)
+                    rec["size_at_invoke"] = f.tell()
+                    if f.tell() > 0:
+                        f.seek(-1, 2)
+                        rec["after_fragment"] = f.read(1) != b"\n"
+            except OSError:
+                pass
         self.sim.log("send-invoke", name, op["serial"])
         try:
             data = self.payload(op["data"])
@@ -787,9 +808,12 @@ class NodeRunner:
             rec["ret"] = self.hist.tick()
             rec["line"] = st["line"]
             rec["start"] = st["start"]
+            rec["size_at_write"] = st.get("size_at_write")
             rec["torn"] = st["torn"]
+            if st["torn"]:
+                self.hist.torn_done += 1
             rec["written"] = st["written"]
-            rec["one_piece"] = st.get("nwrites", 0) == 1 and st["written"] == len(st["line"] or b"")
+            rec["one_piece"] = st.get("nwrites", 0) == 1 and st["written"] == st.get("total", len(st["line"] or b""))
             self.hist.cur_send.pop(name, None)
             self.hist.partial_now.discard(name)
             self.sim.log("send-return", name, op["serial"], rec["acked"], rec["exc"])
@@ -1508,6 +1532,10 @@ def check_history(spec, hist: History, path, gremlin: Gremlin, sim: Sim, rt_fail
                 sim.probe("acked_record_physically_damaged")
                 if not spec["faults"]:
                     raise Violation("acked-not-on-disk", f"serial {s} acknowledged but its line is not in the file", "-")
+                # ... and nothing else landed in the file between the moment send() was called and its write
+                if (rec.get("after_fragment") and rec.get("one_piece") and s not in gremlin.corrupted and not hist.was_intact_at.get(s)
+                        and rec.get("size_at_write") is not None and rec.get("size_at_write") == rec.get("size_at_invoke")):
+                    raise Violation("acked-not-on-disk", f"serial {s} was sent, in one piece and with nobody else writing, after a failed send had left a fragment at the end of the file: it is glued to that fragment and can never be received", "after-torn-write")
     for inc in hist.incarnations:
         seen = {}
         last_off = -1
